@@ -178,7 +178,7 @@ fn test(case: &Case, st: &mut Stats, counting: bool) -> CaseResult {
         let mut p = case.pool.clone();
         if case.cfg_a.contains_overlay() || case.cfg_b.contains_overlay() {
             for n in p.iter_mut() {
-                n.truncate(200);
+                crate::gen::cut_name(n, 200);
             }
         }
         p.dedup();
@@ -388,13 +388,180 @@ fn case_from_json(v: &Value) -> Option<Case> {
     })
 }
 
+// ---------------------------------------------------------------------------------------------
+// deep chains: recursion depth far beyond what the name-pool universes reach
+// ---------------------------------------------------------------------------------------------
+
+#[derive(Clone, Debug)]
+pub struct DeepCase {
+    pub cfg_a: Cfg,
+    pub cfg_b: Cfg,
+    pub depth_sel: u8,
+    pub back: u8,
+    pub file_every: u8,
+    pub op: u8,
+}
+
+const DEPTH_EDGES: [usize; 12] = [8, 16, 32, 40, 41, 48, 64, 100, 128, 129, 200, 256];
+
+fn deep_strategy() -> impl Strategy<Value = DeepCase> {
+    (cfg_strategy(1), cfg_strategy(1), any::<u8>(), 0u8..3, 1u8..9, 0u8..6).prop_map(|(cfg_a, cfg_b, depth_sel, back, file_every, op)| DeepCase { cfg_a, cfg_b, depth_sel, back, file_every, op })
+}
+
+fn deep_json(c: &DeepCase) -> Value {
+    json!({"kind": "c11-deep", "cfg_a": c.cfg_a.to_json(), "cfg_b": c.cfg_b.to_json(), "depth_sel": c.depth_sel, "back": c.back, "file_every": c.file_every, "op": c.op})
+}
+
+fn test_deep(case: &DeepCase, st: &mut Stats, counting: bool) -> CaseResult {
+    let mut depth = DEPTH_EDGES[crate::util::idx((case.depth_sel as u16) << 8, DEPTH_EDGES.len())].saturating_sub(case.back as usize);
+    // keep physical paths and overlay marker paths well inside PATH_MAX
+    if case.cfg_a.contains_phys() || case.cfg_b.contains_phys() {
+        depth = depth.min(129);
+    }
+    let mut what = String::new();
+    let r = guarded(|| -> Result<(), String> {
+        let a = build(&case.cfg_a, &vec![])?;
+        let b = build(&case.cfg_b, &vec![])?;
+        // the source: /s/n/n/.../n with a file 'f' on every file_every-th level and at the bottom
+        let mut model = Tree::new();
+        model.m.clear();
+        let mut p = String::from("/s");
+        model.m.insert(p.clone(), Node::Dir);
+        for lvl in 1..=depth {
+            p.push_str("/n");
+            model.m.insert(p.clone(), Node::Dir);
+            if lvl % case.file_every as usize == 0 || lvl == depth {
+                model.m.insert(format!("{}/f", p), Node::File(std::sync::Arc::new(format!("level {}", lvl).into_bytes())));
+            }
+        }
+        at(&a.root, &p).map_err(|e| e.to_string())?.create_dir_all().map_err(|e| format!("create_dir_all of a chain of depth {} failed: {}", depth, e))?;
+        for (k, n) in model.m.iter() {
+            if let Node::File(bytes) = n {
+                use std::io::Write;
+                at(&a.root, k).map_err(|e| e.to_string())?.create_file().map_err(|e| e.to_string())?.write_all(bytes).map_err(|e| e.to_string())?;
+            }
+        }
+        let mut src0 = snapshot(&a.root).tree;
+        src0.m.remove("");
+        if src0 != model {
+            return Err(format!("building a chain of depth {}: the tree differs from what was created: {:?}", depth, diff_trees(&model, &src0)));
+        }
+        let snap = |r: &vfs::VfsPath| -> Tree {
+            let mut t = snapshot(r).tree;
+            t.m.remove("");
+            t
+        };
+        let rebased = |to: &str| -> Tree {
+            let mut t = Tree::new();
+            t.m.clear();
+            for (k, n) in model.m.iter() {
+                t.m.insert(format!("{}{}", to, &k[2..]), n.clone());
+            }
+            t
+        };
+        let s = at(&a.root, "/s").map_err(|e| e.to_string())?;
+        // copy_dir counts the entries below the source
+        let total = model.m.len() - 1;
+        match case.op {
+            0 => {
+                what = format!("walk_dir over a chain of depth {}", depth);
+                let mut seen = std::collections::BTreeSet::new();
+                for item in s.walk_dir().map_err(|e| e.to_string())? {
+                    let item = item.map_err(|e| format!("{}: error item {}", what, e))?;
+                    if !seen.insert(item.as_str().to_string()) {
+                        return Err(format!("{}: '{}' yielded twice", what, item.as_str()));
+                    }
+                }
+                let expect: std::collections::BTreeSet<String> = model.m.keys().filter(|k| k.as_str() != "/s").cloned().collect();
+                if seen != expect {
+                    return Err(format!("{}: yielded {} of {} entries; first missing: {:?}", what, seen.len(), expect.len(), expect.difference(&seen).next()));
+                }
+            }
+            1 | 2 => {
+                let cross = case.op == 2;
+                what = format!("copy_dir of a chain of depth {} {}", depth, if cross { "to another filesystem" } else { "within one filesystem" });
+                let droot = if cross { &b.root } else { &a.root };
+                let d = at(droot, "/t").map_err(|e| e.to_string())?;
+                let n = s.copy_dir(&d).map_err(|e| format!("{} failed: {}", what, e))?;
+                if n as usize != total {
+                    return Err(format!("{}: returned {} but the source has {} entries", what, n, total));
+                }
+                let mut expect_d = rebased("/t");
+                if !cross {
+                    expect_d.m.extend(model.m.clone());
+                }
+                let got = snap(droot);
+                if got != expect_d {
+                    return Err(format!("{}: destination differs: {:?}", what, diff_trees(&expect_d, &got).into_iter().take(4).collect::<Vec<_>>()));
+                }
+                if cross && snap(&a.root) != model {
+                    return Err(format!("{}: the source changed", what));
+                }
+            }
+            3 | 4 => {
+                let cross = case.op == 4;
+                what = format!("move_dir of a chain of depth {} {}", depth, if cross { "to another filesystem" } else { "within one filesystem" });
+                let droot = if cross { &b.root } else { &a.root };
+                let d = at(droot, "/t").map_err(|e| e.to_string())?;
+                s.move_dir(&d).map_err(|e| format!("{} failed: {}", what, e))?;
+                let got = snap(droot);
+                let expect_d = rebased("/t");
+                if got != expect_d {
+                    return Err(format!("{}: destination differs: {:?}", what, diff_trees(&expect_d, &got).into_iter().take(4).collect::<Vec<_>>()));
+                }
+                if cross && !snap(&a.root).m.is_empty() {
+                    return Err(format!("{}: the source filesystem still holds {:?}", what, snap(&a.root).m.keys().take(3).collect::<Vec<_>>()));
+                }
+            }
+            _ => {
+                what = format!("remove_dir_all of a chain of depth {}", depth);
+                s.remove_dir_all().map_err(|e| format!("{} failed: {}", what, e))?;
+                let got = snap(&a.root);
+                if !got.m.is_empty() {
+                    return Err(format!("{}: left {:?} behind", what, got.m.keys().take(3).collect::<Vec<_>>()));
+                }
+            }
+        }
+        Ok(())
+    });
+    let fail = |m: String| Failure { message: format!("stacks {} / {} | {}", case.cfg_a.render(), case.cfg_b.render(), m), replay: deep_json(case) };
+    match r {
+        Err(p) => Err(fail(format!("PANIC: {}", p))),
+        Ok(Err(m)) => Err(fail(m)),
+        Ok(Ok(())) => {
+            if counting {
+                st.label("deep_chain_cases");
+                st.label(&format!("deep_chain:{}", what.split(" of ").next().unwrap_or("").split(" over ").next().unwrap_or("")));
+                if depth > 40 {
+                    st.label("deep_chain_deeper_than_40");
+                    st.nontrivial.insert(crate::util::fnv_str(&format!("{:?}", case)));
+                }
+            }
+            Ok(())
+        }
+    }
+}
+
 pub fn replay(v: &Value) -> CaseResult {
+    if v.get("kind").and_then(|k| k.as_str()) == Some("c11-deep") {
+        let g = |k: &str| v.get(k).and_then(|x| x.as_u64()).unwrap_or(0) as u8;
+        let case = DeepCase {
+            cfg_a: Cfg::from_json(v.get("cfg_a").unwrap_or(&Value::Null)).unwrap_or(Cfg::Mem),
+            cfg_b: Cfg::from_json(v.get("cfg_b").unwrap_or(&Value::Null)).unwrap_or(Cfg::Mem),
+            depth_sel: g("depth_sel"),
+            back: g("back"),
+            file_every: g("file_every").max(1),
+            op: g("op"),
+        };
+        let mut st = Stats::default();
+        return test_deep(&case, &mut st, false);
+    }
     let case = case_from_json(v.get("case").unwrap_or(&Value::Null)).ok_or_else(|| Failure { message: "unparsable C11 replay".into(), replay: v.clone() })?;
     let mut st = Stats::default();
     test(&case, &mut st, false)
 }
 
-const RULE: &str = "source trees (depth<=3, fan-out<=5, empty directories, binary files up to 20 KiB) on filesystem A, destinations on B, (A,B) drawn from: same instance / two instances of one backend / two different backends-adapters (Mem, Phys, altroot, overlay incl. sub-path layers); ops create_dir_all, remove_dir_all, copy_file, move_file, copy_dir, move_dir (plus appends, so that a copy aliasing its source shows) in both directions with destinations that are free, occupied, or lack a (directory) parent; oracle = two tree models and full snapshots of BOTH filesystems after every op: copy = identical subtree at the destination + untouched source + returned entry count, move = same + no trace of the source, existing destination refused with both snapshots unchanged; non-trivial = a directory transfer whose source has >=2 levels, an empty directory and a file >= 8 KiB";
+const RULE: &str = "source trees (depth<=3, fan-out<=5, empty directories, binary files up to 20 KiB) on filesystem A, destinations on B, (A,B) drawn from: same instance / two instances of one backend / two different backends-adapters (Mem, Phys, altroot, overlay incl. sub-path layers); ops create_dir_all, remove_dir_all, copy_file, move_file, copy_dir, move_dir (plus appends, so that a copy aliasing its source shows) in both directions with destinations that are free, occupied, or lack a (directory) parent; oracle = two tree models and full snapshots of BOTH filesystems after every op: copy = identical subtree at the destination + untouched source + returned entry count, move = same + no trace of the source, existing destination refused with both snapshots unchanged; non-trivial = a directory transfer whose source has >=2 levels, an empty directory and a file >= 8 KiB; PLUS deep chains: a single directory chain of depth 6..256 (edges 8,16,32,40,41,48,64,100,128,129,200,256 minus 0..2; at most 129 on physical stacks) with files on every k-th level: walk_dir yields every entry exactly once, copy_dir / move_dir (within one filesystem and to another one) reproduce it exactly and report the right count, remove_dir_all leaves nothing";
 
 pub fn run(ctx: &RunCtx) -> i32 {
     let reg = crate::regress::run_for(&ctx.id, &replay);
@@ -403,7 +570,12 @@ pub fn run(ctx: &RunCtx) -> i32 {
         println!("VIOLATION property={} replay={}", ctx.id, path);
         return 1;
     }
-    let (stats, failure) = run_sharded(ctx, "transfer", ctx.tier.pick(6000, 300_000), strategy, test);
+    let (mut stats, mut failure) = run_sharded(ctx, "transfer", ctx.tier.pick(6000, 300_000), strategy, test);
+    if failure.is_none() {
+        let (s2, f2) = run_sharded(ctx, "deep", ctx.tier.pick(400, 12_000), deep_strategy, test_deep);
+        stats.merge(s2);
+        failure = f2;
+    }
     write_evidence(ctx, "exploration", RULE, &stats, json!({"regress_replayed": reg.replayed}), &["copy_dir/move_dir into the source's own subtree and wrong-typed transfer sources are not generated", "a transfer that fails for a missing/non-directory destination parent or missing source re-synchronises the models (effect unspecified), but both trees must stay well-formed"], failure.is_some() as u32);
-    finish(ctx, &stats, &failure, &[("distinct_nontrivial", 30), ("pair:same_instance", 100), ("pair:two_instances_one_backend", 100), ("pair:two_backends", 100), ("nontrivial_cross_instance", 10)])
+    finish(ctx, &stats, &failure, &[("distinct_nontrivial", 30), ("pair:same_instance", 100), ("pair:two_instances_one_backend", 100), ("pair:two_backends", 100), ("nontrivial_cross_instance", 10), ("deep_chain_deeper_than_40", 50)])
 }
